@@ -122,7 +122,7 @@ def main():
                      "kind_free_text": "Go harness linked against the real panicparse packages (build tag verif) plus the real pp binary driven through pipes; generators model the producers of the text, monitors are oracles over observed executions"}],
         "checks": checks,
         "not_applicable": na,
-        "notes": "Runtime monitoring only. Validation: mutants/ (62 hand-written mutants, tools/run_mutants.py) and seeded/ (261 changes by independent sub-agents, tools/run_seeded.py), see DESIGN.md 9.5; tools/coverage.sh is the reach analysis. ./check <ID> <quick|thorough> rebuilds harness and pp from /repo's working tree on every call. Exit 0 held / 1 VIOLATION / 2 BROKEN-CHECK. KNOWN_FINDINGS.txt lists known findings and fix commits.",
+        "notes": "Runtime monitoring only. Validation: mutants/ (62 hand-written mutants, tools/run_mutants.py) and seeded/ (272 changes by independent sub-agents, tools/run_seeded.py), see DESIGN.md 9.5; tools/coverage.sh is the reach analysis. ./check <ID> <quick|thorough> rebuilds harness and pp from /repo's working tree on every call. Exit 0 held / 1 VIOLATION / 2 BROKEN-CHECK. KNOWN_FINDINGS.txt lists known findings and fix commits.",
     }
     json.dump(m, open(os.path.join(ROOT, "MANIFEST.json"), "w"), indent=1)
     print("wrote MANIFEST.json: %d checks, %d not_applicable" % (len(checks), len(na)))
